@@ -117,6 +117,9 @@ else:
 m = re.search(r"if \(\(!ws->isstream\) && \(ws->recvmax > 0\)([^{]*)\{\s*size_t\s+totlen = frame->len;", _t)
 if not m:
     missing.append("running recvmax test of ws_read_cb in " + _ws)
+    # keep the name defined (the check is already broken by the missing pattern; the wire runs can still
+    # look for a failing input)
+    extra_text.append("Definition C16_RECVMAX_COUNTS_CONTROL : bool := false.  (* pattern not found: default *)")
 else:
     extra_text.append("Definition C16_RECVMAX_COUNTS_CONTROL : bool := %s.  (* ws_read_cb: recvmax test not restricted to data frames *)"
                       % ("false" if re.search(r"0x0?8", m.group(1)) else "true"))
